@@ -21,9 +21,9 @@ type c03Dim struct {
 }
 
 var c03Dims = []c03Dim{
-	{"method", []string{"GET", "POST", "PUT", "DELETE", "HEAD"}},
-	{"path", []string{"/p", "/p/q", "/a%20b", "/a%2Fb", "/a%3Fb", "/"}},
-	{"query", []string{"x=1", "x=1&x=2", "q=%26", ""}},
+	{"method", []string{"GET", "POST", "PUT", "DELETE", "HEAD", "PATCH", "OPTIONS"}},
+	{"path", []string{"/p", "/p/q", "/a%20b", "/a%2Fb", "/a%3Fb", "/", "/p//q", "/p;v=1", "/p/../q", "/%E4%B8%AD"}},
+	{"query", []string{"x=1", "x=1&x=2", "q=%26", "", "a=b+c&d=%2B", "k", "x=1;y=2"}},
 	{"repeated-header", []string{"no", "yes"}},
 	{"hop-keep-alive", []string{"no", "yes"}},
 	{"hop-proxy-connection", []string{"no", "yes"}},
